@@ -300,12 +300,6 @@ func Compare(a, b *View) (ds []Difference) {
 			ds = append(ds, *d)
 		}
 	}
-	if a.Panic != "" || b.Panic != "" {
-		if a.Panic != b.Panic {
-			add(&Difference{Section: "panic", Detail: fmt.Sprintf("serving panicked with %q, the twin with %q", a.Panic, b.Panic)})
-		}
-		return
-	}
 	if a.Height != b.Height || a.HasHeight != b.HasHeight {
 		add(&Difference{Section: "height", Detail: fmt.Sprintf("height %d, the twin has %d", a.Height, b.Height)})
 	}
@@ -382,6 +376,13 @@ func Compare(a, b *View) (ds []Difference) {
 	add(cmpBucket("file-contracts", a.FC, b.FC))
 	add(cmpLists("expiration-lists", a.Exp, b.Exp))
 	add(cmpLists("expiring-ids-served", a.ExpServed, b.ExpServed))
+	if a.Panic != "" || b.Panic != "" {
+		// the buckets above were read before anything was served; what was served is incomplete
+		if a.Panic != b.Panic {
+			add(&Difference{Section: "panic", Detail: fmt.Sprintf("serving panicked with %q, the twin with %q", a.Panic, b.Panic)})
+		}
+		return
+	}
 	if !bytes.Equal(Enc(a.SuppTxn), Enc(b.SuppTxn)) {
 		add(&Difference{Section: "supplement-tip-transaction", Detail: suppTxnDetail(a.SuppTxn, b.SuppTxn)})
 	}
